@@ -202,6 +202,7 @@ char **ares_htable_dict_keys(const ares_htable_dict_t *htable, size_t *num)
 
   buckets = ares_htable_all_buckets(htable->hash, &cnt);
   if (buckets == NULL || cnt == 0) {
+    ares_free(buckets);
     return NULL;
   }
 
